@@ -16,6 +16,7 @@ RULE = ('Each configuration is run (a) twice in one process with fresh objects, 
         'inverse-volatility models, both sizers. Non-trivial: a configuration with >= 2 fills; distinct = (config '
         'signature, entry map).'
         ' Further modes: the same universe object, the same data handler (after it was asked for prices before an asset\'s first bar) and the same alpha model object (weights dict) reused by a second run.')
+RULE += ' Before every session case six hand-driven broker scripts (subscriptions, several orders per asset and side with library-generated ids queued while the exchange is closed, clock updates) are run four times in one process and their portfolio histories, cash and holdings compared bit for bit. One case per shard precedes the warmed-source run with 40 000 (almost all distinct) price lookups.'
 ASSUMPTIONS = ['order identifiers (random uuids) are excluded from the comparison, as the statement says']
 
 
